@@ -4,7 +4,7 @@ import nodelib
 from nodelib import SEP, hx
 
 ID = "C18"
-GEN_FILES = ["PidConsts.v", "ControlTable.v", "Tags.v"]
+GEN_FILES = ["PidConsts.v", "ControlTable.v", "Tags.v", "LockScope.v"]
 RULE = ("scripts of 10..60 operations over up to 6 instrumented processes on one started node: spawn, register / unregister / whereis with a "
         "pool of 4 names (re-registration after termination included), send by identifier and by name (bodies from the C01 term "
         "generator), link, unlink, monitor (several per pair), demonitor, process failure (a message that makes the handler return an "
